@@ -204,8 +204,25 @@ def _jump_seconds(kind, fn, rng, now):
     return int((nxt - d).total_seconds()) + rng.choice([0, 1, 30])
 
 
+SHIPPED = {}
+
+
+def shipped_page():
+    """The manual page shipped with the tree (read once, from the real file
+    system, before any simulation starts)."""
+    if "v" not in SHIPPED:
+        try:
+            with open(os.path.join(core.REPO_DIR, "doc", "qr.1"), encoding="ascii") as f:
+                SHIPPED["v"] = f.read()
+        except (OSError, UnicodeDecodeError):
+            SHIPPED["v"] = None
+    return SHIPPED["v"]
+
+
 def generate(rng, tier, opts=None):
     page = gen_page(rng, tier)
+    if rng.random() < 0.04 and shipped_page() and "\r" not in shipped_page():
+        page = shipped_page()
     missing = rng.random() < 0.03
     # anywhere between 1995 and 2060, biased to day/month boundaries
     start = rng.randint(788918400, 2840140800)
